@@ -2,7 +2,7 @@
    One theorem per parser/serialiser pair of the model; see DESIGN.md for the pairs that
    are so far covered by the correspondence check and oracle only. *)
 From Model Require Import Bytes Prim Tables Cert KAC Mapping Sig LS RI.
-From Proofs Require Import BytesLemmas PrimProofs Frame LeafProofs KacRT OffProofs MapRT LS2RT UptoRT LSRT.
+From Proofs Require Import BytesLemmas PrimProofs Frame LeafProofs KacRT OffProofs MapRT LS2RT UptoRT LSRT Retail.
 Open Scope Z_scope.
 
 Theorem C01_certificate : forall x c r, wf x -> read_certificate x = Ok (c, r) ->
@@ -109,3 +109,31 @@ Theorem C01_lease_set2_shape : forall x l r, wf x -> read_lease_set2 x = Ok (l, 
     integer_int sz = Z.of_nat (length (serialize_pairs (map_values (l2_options l)) ++ slack)) /\
     (slack = [] \/ has_min_bytes slack = false).
 Proof. exact read_lease_set2_shape. Qed.
+
+(* ---- the serialisation is itself an accepted encoding of the same value (idempotence): the
+   consumed bytes alone parse, with an empty remainder, to a value with the same serialisation ---- *)
+Theorem C01_keys_and_cert_serialisation_parses_back : forall x k r, wf x -> read_keys_and_cert x = Ok (k, r) ->
+  exists b k', kac_bytes k = Ok b /\ read_keys_and_cert b = Ok (k', []) /\ kac_bytes k' = Ok b.
+Proof.
+  intros x k r W H. destruct (read_keys_and_cert_retail x k r [] W H) as [b [k' [KB [_ [R [KB' _]]]]]].
+  rewrite app_nil_r in R. exists b, k'. auto.
+Qed.
+Print Assumptions C01_keys_and_cert_serialisation_parses_back.
+Theorem C01_destination_serialisation_parses_back : forall x k r, wf x -> read_destination x = Ok (k, r) ->
+  exists b k', kac_bytes k = Ok b /\ read_destination b = Ok (k', []) /\ kac_bytes k' = Ok b.
+Proof.
+  intros x k r W H. destruct (read_destination_retail x k r [] W H) as [b [k' [KB [_ [R [KB' _]]]]]].
+  rewrite app_nil_r in R. exists b, k'. auto.
+Qed.
+Theorem C01_key_certificate_serialisation_parses_back : forall x kc r, wf x -> new_key_certificate x = Ok (kc, r) ->
+  exists b kc', keycert_bytes kc = Ok b /\ new_key_certificate b = Ok (kc', []) /\ keycert_bytes kc' = Ok b.
+Proof.
+  intros x kc r W H. destruct (new_key_certificate_retail x kc r [] W H) as [b [k' [KB [_ [R [KB' _]]]]]].
+  rewrite app_nil_r in R. exists b, k'. auto.
+Qed.
+Theorem C01_certificate_serialisation_parses_back : forall x c r, wf x -> read_certificate x = Ok (c, r) ->
+  exists b c', cert_bytes c = Ok b /\ read_certificate b = Ok (c', []) /\ cert_bytes c' = Ok b.
+Proof.
+  intros x c r W H. destruct (read_certificate_retail x c r [] W H) as [b [c' [CB [_ [R [CB' _]]]]]].
+  rewrite app_nil_r in R. exists b, c'. auto.
+Qed.
